@@ -13,3 +13,46 @@ package logicalplan
 //@ func New
 //@   trusted wraps promql.PreprocessExpr (dependency) and setOffsetForAtModifier
 //@   ensures result != nil
+
+// ---- merge_selects.go (C09) ----------------------------------------------------------------------
+// A selector {M} may be replaced by the broader selector {R} plus an in-engine filter {F} only if
+// every matcher of M is applied by R or by F, and neither R nor F applies a matcher that is not in M
+// (matchers compared by name, type and value; a label name may occur in several matchers). With the
+// filter semantics of storage.filter.Matches (every matcher holds, absent label = "") the rewritten
+// selector then selects exactly the series of the original one.
+//@ pred sameM(a, b) = a.Name == b.Name && a.Type == b.Type && a.Value == b.Value
+//@ pred inM(ms, m) = exists j in 0..len(ms) :: sameM(ms[j], m)
+//@ pred nonnilM(ms) = forall j in 0..len(ms) :: ms[j] != nil
+//@ func containsMatcher
+//@   requires m != nil && nonnilM(matchers)
+//@   assigns nothing
+//@   ensures[C09] contains-by-name-type-value: result == inM(matchers, m)
+//@   loop 0 invariant forall j in 0..rangeindex+1 :: !sameM(matchers[j], m)
+//@ func (matcherHeap).findReplacement
+//@   requires nonnilM(matcher) && (has(m, metricName) ==> nonnilM(m[metricName]))
+//@   assigns nothing
+//@   ensures[C09] replacement-is-the-recorded-selector: result1 ==> has(m, metricName) && sameslice(result0, m[metricName])
+//@   ensures[C09] replacement-applies-only-matchers-of-the-selector: result1 ==> forall i in 0..len(result0) :: inM(matcher, result0[i])
+//@   ensures[C09] replacement-differs-from-the-selector: result1 ==> len(result0) != len(matcher)
+//@   loop 0 invariant nonnilM(top) && sameslice(top, m[metricName]) && (forall i in 0..rangeindex+1 :: inM(matcher, top[i]))
+// The rewrite itself (closure handed to traverse by replaceMatchers): at the point where the selector's
+// matchers are replaced, every matcher of the selector is applied by the replacement or kept as a
+// filter, and the replacement and the filters consist of matchers of the selector only.
+//@ func replaceMatchers$1
+//@   requires node != nil
+//@   requires istype(*node, *parser.VectorSelector) ==> cast(*node, *parser.VectorSelector) != nil && nonnilM(cast(*node, *parser.VectorSelector).LabelMatchers)
+//@   requires forall k in ALL..ALL :: has(selectors, k) ==> nonnilM(selectors[k]) && preexisting(selectors[k])
+//@   requires istype(*node, *parser.VectorSelector) ==> preexisting(cast(*node, *parser.VectorSelector).LabelMatchers)
+//@   at line "e.LabelMatchers = replacement" assert[C09] every-matcher-still-applied: forall k in 0..len(e.LabelMatchers) :: inM(replacement, e.LabelMatchers[k]) || inM(filters, e.LabelMatchers[k])
+//@   at line "e.LabelMatchers = replacement" assert[C09] filters-are-matchers-of-the-selector: forall i in 0..len(filters) :: inM(e.LabelMatchers, filters[i])
+//@   at line "e.LabelMatchers = replacement" assert[C09] replacement-applies-only-matchers-of-the-selector: forall i in 0..len(replacement) :: inM(e.LabelMatchers, replacement[i])
+//@   at line "e.LabelMatchers = replacement" assert[C09] replacement-is-a-recorded-selector: exists k in ALL..ALL :: has(selectors, k) && sameslice(replacement, selectors[k])
+//@   loop 0 invariant e != nil && nonnilM(e.LabelMatchers) && e == cast(*node, *parser.VectorSelector) && preexisting(e.LabelMatchers)
+//@   loop 1 invariant e != nil && nonnilM(e.LabelMatchers) && nonnilM(replacement) && nonnilM(filters) && fresh(filters) && preexisting(e.LabelMatchers) && preexisting(replacement) &&
+//@       (forall i in 0..len(replacement) :: inM(e.LabelMatchers, replacement[i])) && (exists k in ALL..ALL :: has(selectors, k) && sameslice(replacement, selectors[k]))
+//@   ghostvar fw seqint = constseq(-1)
+//@   at line "if !containsMatcher(replacement, f) {" set fw = store(fw, rangeindex, -1)
+//@   at line "filters = append(filters, f)" set fw = store(fw, rangeindex, len(filters))
+//@   loop 1 invariant kept-or-applied: forall k in 0..rangeindex+1 :: (fw[k] == -1 && inM(replacement, e.LabelMatchers[k])) ||
+//@       (0 <= fw[k] && fw[k] < len(filters) && filters[fw[k]] == e.LabelMatchers[k])
+//@   loop 1 invariant filters-from-selector: forall i in 0..len(filters) :: inM(e.LabelMatchers, filters[i])
